@@ -192,9 +192,11 @@ def U.isComplex : U → Bool
   | .complex n d => n.length != 1 || !d.isEmpty
   | _ => false
 
+/-- unknown units keep their spelling (mod.rs:254,296).  The model has two families of spellings, `foo<i>`
+    (code `2i`) and `FOO<i>` (code `2i+1`): the same letters in the other case are a DIFFERENT unit. -/
 def AU.name : AU → String
   | .known k => k.name
-  | .unknown n => s!"foo{n}"
+  | .unknown n => if n % 2 = 0 then s!"foo{n / 2}" else s!"FOO{n / 2}"
 
 /-- `Display for Unit` (mod.rs:259) -/
 def U.name : U → String
@@ -283,6 +285,27 @@ def cmpSN (a b : SN) : Except UErr (Option Ordering) :=
   else match convert b.num b.unit a.unit with
     | .ok c => .ok (cmpD false a.num c)
     | .error e => .error e
+
+/-- the four order relations (bin_op.rs:408 `cmp`): decided from the `Ordering`; `None` (a NaN operand) is `false` -/
+inductive Rel where
+  | lt | le | gt | ge
+  deriving DecidableEq, Repr
+
+def relHolds (r : Rel) (o : Option Ordering) : Bool :=
+  match o with
+  | none => false
+  | some ord =>
+    match r with
+    | .lt => ord == .lt
+    | .le => ord != .gt
+    | .gt => ord == .gt
+    | .ge => ord != .lt
+
+/-- `a < b`, `a <= b`, `a > b`, `a >= b` on numbers with units -/
+def relSN (r : Rel) (a b : SN) : Except UErr Bool := (cmpSN a b).map (relHolds r)
+
+/-- `math.is-unitless` (meta.rs:78): `number.unit == Unit::None` -/
+def isUnitless (a : SN) : Bool := decide (a.unit = .none)
 
 def U.canonical (u : U) : Option U := u.kind.canonical.map fun k => .one (.known k)
 
@@ -391,6 +414,7 @@ def printSN (inspect compressed : Bool) (n : SN) : Except UErr String :=
 
 inductive Op where
   | add | sub | lt | eq | rem | min | max | div | mul | divInspect | mulInspect | compatible | unitMul | unitDiv
+  | le | gt | ge | unitlessMul | unitlessDiv | unitlessA
   deriving DecidableEq, Repr
 
 def boolS (b : Bool) : String := if b then "true" else "false"
@@ -411,6 +435,12 @@ def runOp (compressed : Bool) (o : Op) (a b : SN) : Except UErr String :=
   | .compatible => .ok (boolS (comparable a.unit b.unit))
   | .unitMul => (mulSN a b).map fun r => "\"" ++ r.unit.name ++ "\""
   | .unitDiv => (divSN a b).map fun r => "\"" ++ r.unit.name ++ "\""
+  | .le => (relSN .le a b).map boolS
+  | .gt => (relSN .gt a b).map boolS
+  | .ge => (relSN .ge a b).map boolS
+  | .unitlessMul => (mulSN a b).map fun r => boolS (isUnitless r)
+  | .unitlessDiv => (divSN a b).map fun r => boolS (isUnitless r)
+  | .unitlessA => .ok (boolS (isUnitless a))
 
 /-! ## the property predicate P̂ on an observation (independent of the table: uses `cssSpec`) -/
 
@@ -472,15 +502,63 @@ def checkAddSub (sub : Bool) (x y : Rat) (a b : U) (obs : Option (List Char)) : 
       let (lo, hi) := if sub then (x - hi, x - lo) else (x + lo, x + hi)
       String.ofList ut == (resultUnit a b).name && closeTo nt lo hi
 
+/-! ## the f64 constants of the table against their exact values -/
+
+/-- enclosure of `π^k` -/
+def piPow (k : Int) : Rat × Rat :=
+  if k ≥ 0 then (piLo ^ k.toNat, piHi ^ k.toNat) else (1 / piHi ^ (-k).toNat, 1 / piLo ^ (-k).toNat)
+
+/-- enclosure of the value of a `Sym` -/
+def symInterval (s : Sym) : Rat × Rat :=
+  let (a, b) := piPow s.k
+  if s.q ≥ 0 then (s.q * a, s.q * b) else (s.q * b, s.q * a)
+
+
+/-- 2⁻⁵¹ -/
+def relTol : Rat := 1 / 2251799813685248
+
+/-- the executed constant (every literal and operation rounded to f64, `PI` the f64 constant) lies within a
+    relative 2⁻⁵¹ of the exact value of the expression as written (π by its 30-digit enclosure) -/
+def f64EntryClose (e : CExpr) : Bool :=
+  let c := f64Of e
+  let iv := symInterval (symOf e)
+  decide (0 < iv.1) && decide (iv.1 * (1 - relTol) ≤ c) && decide (c ≤ iv.2 * (1 + relTol))
+
+def tableF64Close : Bool := KU.all.all fun t => (tableRow t).all fun p => f64EntryClose p.2
+
+/-- the two executed constants of a pair of units multiply to 1 within 2⁻⁵² -/
+def roundtripPairClose (t f : KU) : Bool :=
+  match factorF64 t f, factorF64 f t with
+  | some a, some b => decide (absQ (a * b - 1) * 4503599627370496 ≤ 1)
+  | none, none => true
+  | _, _ => false
+
+def tableRoundtripClose : Bool := KU.all.all fun t => KU.all.all fun f => roundtripPairClose t f
+
 /-! ## driver -/
 open Grass.Proto
 
 def kuOfName (s : String) : Option KU := KU.all.find? fun k => k.name == s
 
-/-- unit token: `-` unitless, a display name, or `?<n>` unknown -/
+def asciiLower (s : String) : String := String.ofList (s.toList.map Char.toLower)
+
+/-- `From<String> for Unit` (mod.rs:217-256): the spelling is ASCII-lower-cased and looked up among the known
+    names (so `PX`, `Px`, `px` are all `Unit::Px` and print as `px`; `HZ` prints as `Hz`); every other
+    spelling is `Unit::Unknown(spelling)` with its case kept.  Unknown spellings other than `foo<i>` /
+    `FOO<i>` are outside the model (`none`). -/
+def unitOfSpelling (s : String) : Option AU :=
+  let lower := asciiLower s
+  match KU.all.find? fun k => asciiLower k.name == lower with
+  | some k => some (.known k)
+  | none =>
+    if s.startsWith "foo" then (s.drop 3).toString.toNat?.map fun i => AU.unknown (2 * i)
+    else if s.startsWith "FOO" then (s.drop 3).toString.toNat?.map fun i => AU.unknown (2 * i + 1)
+    else none
+
+/-- unit token: `-` unitless, `?<i>` = the unknown unit `foo<i>`, or a spelling as written in the source -/
 def auOfStr (s : String) : Option AU :=
-  if s.startsWith "?" then (s.drop 1).toString.toNat?.map AU.unknown
-  else (kuOfName s).map AU.known
+  if s.startsWith "?" then (s.drop 1).toString.toNat?.map fun i => AU.unknown (2 * i)
+  else unitOfSpelling s
 
 def uOfStr (s : String) : Option U :=
   if s == "-" then some .none else (auOfStr s).map U.one
@@ -491,7 +569,10 @@ def opOfStr (s : String) : Option Op :=
   else if s == "max" then some .max else if s == "div" then some .div else if s == "mul" then some .mul
   else if s == "divInspect" then some .divInspect else if s == "mulInspect" then some .mulInspect
   else if s == "compatible" then some .compatible else if s == "unitMul" then some .unitMul
-  else if s == "unitDiv" then some .unitDiv else none
+  else if s == "unitDiv" then some .unitDiv
+  else if s == "le" then some .le else if s == "gt" then some .gt else if s == "ge" then some .ge
+  else if s == "unitlessMul" then some .unitlessMul
+  else if s == "unitlessDiv" then some .unitlessDiv else if s == "unitlessA" then some .unitlessA else none
 
 def snOf (lit unit : String) : Option SN := do
   let l ← parseLit lit.toList
@@ -526,6 +607,10 @@ def runRpn (c : Bool) : List String → List SN → Except UErr (Option String)
     | "inspect", [a] => (printSN true false a).map some
     | "unit", [a] => .ok (some ("\"" ++ a.unit.name ++ "\""))
     | "lt", [b, a] => (cmpSN a b).map fun o => some (boolS (o == some .lt))
+    | "le", [b, a] => (relSN .le a b).map fun r => some (boolS r)
+    | "gt", [b, a] => (relSN .gt a b).map fun r => some (boolS r)
+    | "ge", [b, a] => (relSN .ge a b).map fun r => some (boolS r)
+    | "unitless", [a] => .ok (some (boolS (isUnitless a)))
     | "eq", [b, a] => (eqSN a b).map fun r => some (boolS r)
     | "compatible", [b, a] => .ok (some (boolS (comparable a.unit b.unit)))
     | _, _ => .ok none
@@ -555,7 +640,7 @@ def atomOf : AU → String × Sym
   | .known k => match cssSize k with
     | some (d, s) => (dimName d, s)
     | none => (k.name, Sym.one)
-  | .unknown n => (s!"foo{n}", Sym.one)
+  | .unknown n => (AU.name (.unknown n), Sym.one)
 
 def addAtom (name : String) (e : Int) : List (String × Int) → List (String × Int)
   | [] => [(name, e)]
@@ -601,7 +686,9 @@ def auList (s : String) : Option (List AU) :=
   if s == "" then some [] else (s.splitOn "*").mapM auOfStrDisp
 where
   auOfStrDisp (n : String) : Option AU :=
-    if n.startsWith "foo" then (n.drop 3).toString.toNat?.map AU.unknown else (kuOfName n).map AU.known
+    if n.startsWith "foo" then (n.drop 3).toString.toNat?.map fun i => AU.unknown (2 * i)
+    else if n.startsWith "FOO" then (n.drop 3).toString.toNat?.map fun i => AU.unknown (2 * i + 1)
+    else (kuOfName n).map AU.known
 
 /-- parse `Display for Unit`: ``, `a`, `a*b`, `a*b/c*d`, `a^-1`, `(a*b)^-1` -/
 def unitOfDisplay (s : String) : Option U :=
@@ -614,15 +701,6 @@ def unitOfDisplay (s : String) : Option U :=
     | [n] => (auList n).map fun n => U.mk n []
     | [n, d] => do let n ← auList n; let d ← auList d; some (U.mk n d)
     | _ => none
-
-/-- enclosure of `π^k` -/
-def piPow (k : Int) : Rat × Rat :=
-  if k ≥ 0 then (piLo ^ k.toNat, piHi ^ k.toNat) else (1 / piHi ^ (-k).toNat, 1 / piLo ^ (-k).toNat)
-
-/-- enclosure of the value of a `Sym` -/
-def symInterval (s : Sym) : Rat × Rat :=
-  let (a, b) := piPow s.k
-  if s.q ≥ 0 then (s.q * a, s.q * b) else (s.q * b, s.q * a)
 
 /-- P̂ for products and quotients: the printed number-with-unit denotes the same quantity as the
     expression, by the CSS ratios (tolerance: the 10 printed digits + 2⁻⁴⁰ relative; π by enclosure). -/
@@ -684,6 +762,16 @@ def handle : List String → String
       | _, _ => "ok none"
     | _, _ => "bad-op"
   | ["units"] => "ok " ++ " ".intercalate (KU.all.map KU.name)
+  -- spell <hex spelling> : the unit a spelling denotes, by its display name (`From<String>` then `Display`)
+  | ["spell", hx] =>
+    match hexDecode hx with
+    | some sp =>
+      match unitOfSpelling sp with
+      | some a => "ok " ++ hexEncode a.name
+      | none => "unsupported"
+    | none => "bad-op"
+  -- tablecheck : the two f64 table predicates of the theorems, executed
+  | ["tablecheck"] => "ok " ++ boolStr tableF64Close ++ " " ++ boolStr tableRoundtripClose
   -- expr <c|e> <rpn…> : compound operands
   | "expr" :: st :: toks =>
     match runRpn (st == "c") toks [] with
